@@ -1,6 +1,8 @@
 import MorfuseModel.Emit.Model
 import MorfuseModel.Emit.Master
 import MorfuseModel.Emit.MasterLemmas
+import MorfuseModel.Emit.Fixup
+import MorfuseModel.Emit.ArenaFits
 /-!
 # C01 — compilation is total: any source text is accepted or cleanly rejected
 
@@ -31,6 +33,161 @@ theorem compile_total (dev : Bool) (root : Node) :
 set_option maxRecDepth 100000 in
 example : (match emit (.list (.cons (.while_ (.int 1) (.list (.cons .brk .nil)) .none) .nil)) (St.init true) with
     | .ok s' => s'.info.progLength == 18 | .error _ => false) = true := by decide
+
+/-- **The break / continue fix-up tables are never indexed outside their capacity.**
+(`apucBreakJumpLocations[BREAK_JUMP_LOCATION_COUNT]`, `apucContinueJumpLocations[CONTINUE_JUMP_LOCATION_COUNT]`; the
+capacities are regenerated from `Compiler.h` into `Gen/EmitConsts.lean`.)  For **every** parse tree and every emitter
+state whose two counters are within the tables — in particular the initial state of either pass and of the
+counting sub-emitters of `try` / `switch` —
+1. the emitter (either manager) never reads or writes `apucBreakJumpLocations[i]` / `apucContinueJumpLocations[i]`
+   with `i ≥` capacity (the model's `Ub.breakIndex` / `Ub.continueIndex` outcomes), and leaves both counters
+   within the tables;
+2. the same for a whole compile (counting pass, `Preallocate`, program pass);
+3. `AddBreakJumpLocation` / `AddContinueJumpLocation` store only below the capacity, and at capacity raise the
+   modelled `BreakJumpLocOverflow` / `ContinueJumpLocOverflow` instead of storing. -/
+theorem C01_fixup_tables_bounded :
+    (∀ (n : Node) (s : St), s.nBrk ≤ Gen.EmitConsts.breakMax → s.nCont ≤ Gen.EmitConsts.continueMax →
+      match emit n s with
+      | .ok s' => s'.nBrk ≤ Gen.EmitConsts.breakMax ∧ s'.nCont ≤ Gen.EmitConsts.continueMax
+      | .error e => e ≠ .ub .breakIndex ∧ e ≠ .ub .continueIndex)
+    ∧ (∀ (dev : Bool) (root : Node),
+        compile dev root ≠ .error (.ub .breakIndex) ∧ compile dev root ≠ .error (.ub .continueIndex))
+    ∧ (∀ (s : St) (p : Nat),
+        (s.nBrk < Gen.EmitConsts.breakMax → ∃ s', s.addBreak p = .ok s' ∧ s'.nBrk = s.nBrk + 1) ∧
+        (¬ s.nBrk < Gen.EmitConsts.breakMax → s.addBreak p = .error .breakOverflow) ∧
+        (s.nCont < Gen.EmitConsts.continueMax → ∃ s', s.addContinue p = .ok s' ∧ s'.nCont = s.nCont + 1) ∧
+        (¬ s.nCont < Gen.EmitConsts.continueMax → s.addContinue p = .error .continueOverflow)) := by
+  refine ⟨?_, ?_, ?_⟩
+  · intro n s hb hc
+    have h := (pb_all n).e s ⟨hb, hc⟩
+    cases hr : emit n s with
+    | ok s' => rw [hr] at h; exact h
+    | error e => rw [hr] at h; exact h
+  · intro dev root
+    have h := compile_EB dev root
+    constructor
+    · intro hc; rw [hc] at h; exact h.1 rfl
+    · intro hc; rw [hc] at h; exact h.2 rfl
+  · intro s p
+    refine ⟨?_, ?_, ?_, ?_⟩
+    · intro h; refine ⟨{ s with brk := s.brk.set s.nBrk p, nBrk := s.nBrk + 1 }, by simp [St.addBreak, h], rfl⟩
+    · intro h; simp [St.addBreak, h]
+    · intro h; refine ⟨{ s with cont := s.cont.set s.nCont p, nCont := s.nCont + 1 }, by simp [St.addContinue, h], rfl⟩
+    · intro h; simp [St.addContinue, h]
+
+/-- non-vacuity: a full break table rejects the next `break` with the modelled error; a table with one free slot
+takes it -/
+example : ({ St.init true with nBrk := Gen.EmitConsts.breakMax } : St).addBreak 7 = .error .breakOverflow := by
+  simp [St.addBreak, Gen.EmitConsts.breakMax]
+example : (({ St.init true with nBrk := 99 } : St).addBreak 7).toOption.map (·.nBrk) = some 100 := by
+  simp [St.addBreak, Gen.EmitConsts.breakMax, Except.toOption]
+
+/-- **No allocation of a compile runs past the arena that `Preallocate` reserved** (`PreAllocator::Alloc` has an
+assert-only bound; hook H3 kind 0).  For **every** parse tree and both settings of developer mode, the model of
+`ScriptCompiler::Compile` — counting pass, `Preallocate` (source map, the two reserved containers, the program
+buffer, the main label table), program pass (one entry per label, one table per switch / catch state script sized by
+its counting sub-emitter, container slots) — never asks the bump allocator for more than is left
+(`Ub.arenaOverflow` is never the outcome).  The proof goes through the shape of the tree (`Node.syn`): the counting
+pass counts exactly the labels / switches / catches of the tree (`mc_all`), the program pass takes exactly
+`syn.arena` bytes given room in the current label set, the containers and the arena (`mp_all`: no `rehash`, no
+container growth), and `arenaFormula` covers `Preallocate`'s own requests plus `syn.arena` (`fixed_le`).
+Sizes (`sizeof StateScript / CatchBlock / Entry / void* / sourcePosMap_t`) are regenerated from the built binary. -/
+theorem C01_arena_fits (dev : Bool) (root : Node) : compile dev root ≠ .error (.ub .arenaOverflow) := by
+  intro h
+  have := compile_EA dev root
+  rw [h] at this
+  exact this rfl
+
+/-- the pieces the proof of `C01_arena_fits` is made of, for one tree: what the counting pass reports, and what the
+program pass consumes when it is given room -/
+theorem C01_arena_accounting (root : Node) :
+    (match emitRoot root (St.init true) with
+      | .ok c => c.info.numLabels + c.info.numCaseLabels = root.syn.lab ∧ c.info.numSwitches = root.syn.sw ∧
+          c.info.numCatches = root.syn.ca
+      | .error e => e ≠ .ub .arenaOverflow)
+    ∧ (∀ s : St, PPre root.syn (frA s) →
+        match emit root s with
+        | .ok s' => s'.arenaUsed = s.arenaUsed + root.syn.arena ∧ s'.swCont = { s.swCont with num := s.swCont.num + root.syn.sw }
+            ∧ s'.caCont = { s.caCont with num := s.caCont.num + root.syn.ca }
+        | .error e => e ≠ .ub .arenaOverflow) := by
+  constructor
+  · have h := emitRoot_count root
+    cases hr : emitRoot root (St.init true) with
+    | ok c => rw [hr] at h; exact h
+    | error e => rw [hr] at h; exact h
+  · intro s hp
+    have h := (mp_all root).e s hp
+    cases hr : emit root s with
+    | ok s' =>
+      rw [hr] at h
+      obtain ⟨_, _, h3, _, _, h6, h7, h8, h9⟩ := h
+      refine ⟨h3, ?_, ?_⟩
+      · cases hs : s'.swCont; cases ht : s.swCont; simp_all [frA]
+      · cases hs : s'.caCont; cases ht : s.caCont; simp_all [frA]
+    | error e => rw [hr] at h; exact h
+
+set_option maxRecDepth 100000 in
+/-- non-vacuity: a `try` whose catch block holds two labels (the shape of the old arena overflow): the tree's
+contribution is two entries and one table of two slots, one catch block -/
+example : (Node.try_ (.list .nil) (.list (.cons (.label 1 false .nil) (.cons (.label 2 false .nil) .nil)))).syn.arena
+    = 2 * Gen.EmitConsts.szEntry + 2 * Gen.EmitConsts.szPtr := by decide
+
+/-- **The code written by the program pass fits the length computed by the counting pass** — full statement:
+for every tree `compile dev root ≠ .error (.ub .codeOverflow)` (and `≠ .ub .fixupOutside`, `≠ .ub .codeUnderflow`):
+`WriteOpcodeValue` never writes past `prog_end_ptr` (assert-only; hook H3 kind 1).
+
+*Proved here (the `_partial`):* the two managers account for bytes as the argument needs —
+1. program manager: a write of `bs` overflows **iff** `pos + |bs| > progLength`, and otherwise advances the code
+   position by exactly `|bs|` and stays within the buffer (the model's overflow outcome is exactly the H3 condition);
+2. counting manager: a write adds exactly `|bs|` to `progLength`, a forward move adds exactly its distance, and a
+   move back (`AbsorbPrevOpcode`) never takes anything off: the counting pass reports the *gross* number of bytes it
+   wrote or skipped, never less than its net position.
+
+*Missing:* the simulation between the two passes — that from related states both managers take the same peephole
+decisions (they read the same previous-opcode window; `EvalPrevValue` reads the same bytes from the 32-byte ring as
+from the buffer) except for the `LOAD_x_VAR → LOAD_STORE_x_VAR` fusion, where both branches account for 9 bytes, so
+that `gross(program pass) = progLength(counting pass)` and hence `pos ≤ progLength` at every write.  This is
+*compared* on every generated tree instead: `progLength`, bytes written and every code byte of the real compiler
+equal the model's, hook H3 never fires, and a model outcome `UB:codeOverflow` would differ from the engine's. -/
+theorem C01_code_fits_partial (s : St) (bs : List Nat) (k : Nat) :
+    (s.counting = false →
+      (s.write bs = .error (.ub .codeOverflow) ↔ s.pos + bs.length > s.progLen) ∧
+      (∀ s', s.write bs = .ok s' → s'.pos = s.pos + bs.length ∧ s'.pos ≤ s'.progLen ∧ s'.progLen = s.progLen))
+    ∧ (s.counting = true →
+      (∃ s', s.write bs = .ok s' ∧ s'.info.progLength = s.info.progLength + bs.length) ∧
+      (s.moveFwd k).info.progLength = s.info.progLength + k ∧
+      (∃ s', s.moveBack k = .ok s' ∧ s'.info.progLength = s.info.progLength)) := by
+  constructor
+  · intro hc
+    unfold St.write
+    simp only [hc, Bool.false_eq_true, ↓reduceIte]
+    by_cases h : s.pos + bs.length > s.progLen
+    · simp [h]
+    · simp only [h, ↓reduceIte, iff_false]
+      refine ⟨by simp, ?_⟩
+      intro s' hs
+      injection hs with hs
+      subst hs
+      exact ⟨rfl, Nat.le_of_not_gt h, rfl⟩
+  · intro hc
+    refine ⟨?_, ?_, ?_⟩
+    · unfold St.write
+      simp only [hc, ↓reduceIte]
+      refine ⟨_, rfl, ?_⟩
+      have : ∀ (l : List Nat) (t : St), (t.ringWrite l).info = t.info := by
+        intro l
+        induction l with
+        | nil => intro t; rfl
+        | cons b l ih => intro t; unfold St.ringWrite; rw [ih]
+      rw [this]
+    · unfold St.moveFwd; simp [hc]
+    · unfold St.moveBack; simp [hc]
+
+/-- non-vacuity: a one-byte buffer takes one byte and refuses the second -/
+example : ((({ St.init false with progLen := 1, buf := Tbl.mk' 1 0 } : St).write [7]).toOption.map (·.pos)) = some 1 := by
+  simp [St.write, St.init, Except.toOption]
+example : ({ St.init false with progLen := 1, pos := 1 } : St).write [7] = .error (.ub .codeOverflow) := by
+  simp [St.write, St.init]
 
 /-- **A rejected load is clean** (`GetProgramScript` + `GetProgramScriptInternal` + `Load`).  Whenever the
 call really loads (`name` not registered, or `recompile`) and the load fails — the parser rejects the text or
